@@ -620,6 +620,9 @@ pub fn rv_spaces(r: &mut Sm) -> Vec<Sp> {
         v.push(Sp::Rv { dim, bounds: None, frac: None });
         v.push(Sp::Rv { dim, bounds: Some((0..dim).map(|i| (i as f64, i as f64 + 0.5 + i as f64 * 3.0)).collect()), frac: r.pick(&fracs()).clone() });
     }
+    // boxes whose first and last intervals coincide while the ones in between differ; four dimensions
+    v.push(Sp::Rv { dim: 3, bounds: Some(vec![(-1.0, 1.0), (-5.0, 5.0), (-1.0, 1.0)]), frac: None });
+    v.push(Sp::Rv { dim: 4, bounds: Some(vec![(0.0, 1.0), (5.0, 10.0), (2.0, 3.0), (0.0, 1.0)]), frac: None });
     v.push(Sp::Rv { dim: 0, bounds: Some(vec![]), frac: None });
     v.push(Sp::Rv { dim: 2, bounds: Some(vec![(f64::NEG_INFINITY, 0.0), (0.0, f64::INFINITY)]), frac: None });
     v.push(Sp::Rv { dim: 1, bounds: Some(vec![(-1.7e308, 1.7e308)]), frac: None });
@@ -663,6 +666,9 @@ pub fn compound_spaces(r: &mut Sm, n: usize) -> Vec<Sp> {
     for w in [0.0, 0.5, 1.0, 7.0] {
         v.push(Sp::Se2 { w, bounds: Some(vec![(0.0, 10.0), (-5.0, 5.0), (-PI, PI)]) });
         v.push(Sp::Se2 { w, bounds: Some(vec![(0.0, 10.0), (-5.0, 5.0), (-1.0, 2.0)]) });
+        // yaw intervals at least a full turn wide that do not contain [-PI, PI] (the SO(2) constructor clamps them)
+        v.push(Sp::Se2 { w, bounds: Some(vec![(0.0, 10.0), (-5.0, 5.0), (0.0, 2.0 * PI)]) });
+        v.push(Sp::Se2 { w, bounds: Some(vec![(0.0, 10.0), (-5.0, 5.0), (-PI / 2.0, 7.0)]) });
         v.push(Sp::Se2 { w, bounds: None });
         v.push(Sp::Se3 { w, bounds: Some(vec![(0.0, 10.0), (-5.0, 5.0), (1.0, 2.0)]) });
         v.push(Sp::Se3 { w, bounds: None });
@@ -1486,7 +1492,19 @@ pub fn oracle_bounds(sp: &Sp, real: &RealSp, s: &St, out: &mut Vec<Finding>) {
         Sp::So3 { bounds: None, .. } => "so3_unbounded",
         Sp::So3 { bounds: Some((_, m)), .. } if *m >= PI => "so3_unbounded",
         Sp::So3 { .. } => "so3",
-        _ => if has_so3(sp) { "compound_with_so3" } else { "compound" },
+        _ => {
+            // an SO(2) component whose (clamped) interval ends at PI with a lower end above -PI: the recorded
+            // so2_upper_pi defect seen through SE(2) / a compound space
+            fn upper_pi(sp: &Sp) -> bool {
+                match sp {
+                    Sp::So2 { bounds: Some((lo, hi)), .. } => hi.min(PI) >= PI && lo.max(-PI) > -PI,
+                    Sp::Se2 { bounds: Some(b), .. } if b.len() == 3 => b[2].1.min(PI) >= PI && b[2].0.max(-PI) > -PI,
+                    Sp::Cs(s) => s.iter().any(|(x, _)| upper_pi(x)),
+                    _ => false,
+                }
+            }
+            if has_so3(sp) { "compound_with_so3" } else if upper_pi(sp) { "compound_with_so2_upper_pi" } else { "compound" }
+        }
     };
     // the property quantifies over states (finite numbers); NaN / infinite components are the malformed stream
     let nan_in = st_bits(s).iter().any(|b| !f64::from_bits(*b).is_finite());
